@@ -318,4 +318,14 @@ def build(tier, repo):
             r6.violation(key, "src/C/blas.c:%s" % fn, "real/imaginary parts are not composed as the definition requires",
                          want, uniq)
     r6.require(2)
+    from .. import cmisc_rules as mr5
+    from .. import crefusal
+    r9 = chk.rule("C17-R9", "the member of a parsed scalar handed to the routine is the one its parse type selects",
+                  "calls whose types conflict are rejected: a complex alpha/beta is not accepted where the routine takes a real one")
+    chk.note_analysed("scalar_member_uses", mr5.scalar_member_rule(r9, c, wrappers))
+    r9.require(40)
+    r10 = chk.rule("C17-R10", "no refusal of a wrapper is dead (repeats a test its block has already made)",
+                   "inconsistent arguments are rejected: the check a message announces exists")
+    chk.note_analysed("refusals_checked", crefusal.dead_refusal_rule(r10, c, wrappers))
+    r10.require(150)
     return chk
